@@ -62,6 +62,11 @@ def amplitude_normalise(X, thresh=1e-10, clip=False, interp_method='pchip',
     """
     logger.info('STARTED: Amplitude-Normalise')
 
+    if X.ndim == 1:
+        # A single IMF passed as a vector - handle as one column
+        return amplitude_normalise(X[:, None], thresh=thresh, clip=clip,
+                                   interp_method=interp_method, max_iters=max_iters)[:, 0]
+
     if X.ndim == 2:
         logger.debug('Normalising {0} samples across {1} IMFs'.format(*X.shape))
     else:
